@@ -431,6 +431,14 @@ class UnkInt(object):
 
 
 ndarr.MASKED_SIZE_HOOK = lambda sel: UnkInt(tags_of(sel.mask))
+# min / max of values[mask]: one of the values, which one (and whether there is any) depends on the mask as well
+def _masked_reduce(sel, name):
+    if not any(isinstance(v, DV) for v in sel.arr.items()):
+        raise AnalysisError('%s of a selection by an undetermined boolean mask' % name)
+    return join_values(sel.arr.items(), tags_of(sel.mask))
+
+
+ndarr.MASKED_REDUCE_HOOK = _masked_reduce
 
 
 class UnkIndexSet(object):
